@@ -102,9 +102,22 @@ def run(ctx):
                         "had not been handed to the writer when FlushLogger returned, or order/duplication)" % (kind, json.dumps(ev)),
                         {"trace": t, "offset": f["offset"]})
     # binding self-test
-    base = next((t for t in traces if t[0]["k"] == 10000 and sum(1 for e in t if e["e"] == "Write") >= 2 and any(e["e"] == "FlushRet" for e in t)), None)
+    def covered_last_write(t):
+        """The last written entry's logging call returned before a flush was requested whose return follows the write."""
+        wi_ = [i for i, e in enumerate(t) if e["e"] == "Write"]
+        if t[0]["k"] != 10000 or len(wi_) < 2:
+            return False
+        w = t[wi_[-1]]
+        ret = next((i for i, e in enumerate(t) if e["e"] == "LogRet" and e.get("g") == w.get("g") and e.get("i") == w.get("i")), None)
+        if ret is None:
+            return False
+        fc = next((i for i, e in enumerate(t) if e["e"] == "FlushCall" and i > ret), None)
+        fr = next((i for i, e in enumerate(t) if e["e"] == "FlushRet" and fc is not None and i > fc), None)
+        return fc is not None and fr is not None and wi_[-1] < fr
+
+    base = next((t for t in traces if covered_last_write(t)), None)
     if base is None:
-        raise Inconclusive("no trace with two writes for the self-test")
+        raise Inconclusive("no trace with two writes, the last of them covered by a flush, for the self-test")
     selftest = {}
     wi = [i for i, e in enumerate(base) if e["e"] == "Write"]
     drop = [e for i, e in enumerate(base) if i != wi[-1]]           # last written entry never reaches the writer
